@@ -37,6 +37,14 @@ func (t *Dense) Transpose() error {
 		t.sanity()
 	}()
 
+	if t.viewOf == 0 && !isDefaultLayout(&t.old, t.len()) {
+		// the engines move the data of an array that is in the default layout of the shape it had before T().
+		// The clone of a non-contiguous view and the SafeT() of a transposed tensor are not: their elements are
+		// collected by coordinate into a new array.
+		t.compact()
+		return nil
+	}
+
 	if t.IsVector() {
 		// no data movement: the axis that holds the elements keeps the stride it has
 		for i, d := range expShape {
